@@ -151,6 +151,8 @@ func runC02(c *Ctx) {
 	// (8) the stamp the hop is read from, and the header lookup behind "top Via" (shared with C07 / C17)
 	c07StampContent(c)
 	ruleHeaderFind(c, "pop-structure")
+	c17Layout(c)
+	c01ValueEffects(c)
 	// the host table the destination is resolved through (shared with C13)
 	c13AliasTable(c)
 	ruleNumberParsing(c, "default-port", 2, "parseViaParam", "(*ViaParam).GetRPort")
